@@ -29,6 +29,7 @@ def run(ctx):
                 'non-trivial when t >= 1 (keys are actually exchanged)' % maxm)
     ctx.explanation = 'key-distribution theorems for all m,t; simulator handshakes vs model and oracle'
     exprs, meta = [], []
+    configs = []
     for m in range(1, maxm + 1):
         for t in range(0, (m + 1) // 2):
             if 2 * t >= m:
@@ -38,14 +39,26 @@ def run(ctx):
                     continue
                 if m >= 6 and pname in ('bytewise', 'random2'):
                     continue
+                configs.append((m, t, None, pname))
+    # the program assigns mpc.threshold before mpc.start() (as demos/parallelsort.py does): the runtime comes up with
+    # threshold t0 (command line / default), keys must be generated, sent and filed for the threshold in force t
+    for (m, t, t0) in [(3, 1, 0), (3, 0, 1), (4, 1, 0), (5, 2, 1), (5, 1, 2), (5, 2, 0)] + ([(7, 3, 1), (6, 1, 2)] if ctx.tier == 'thorough' else []):
+        for pname in ['fifo', 'random', 'bytewise']:
+            configs.append((m, t, t0, pname))
+    for (m, t, t0, pname) in configs:
+        for _once in (0,):
+            for _once2 in (0,):
                 seed = rng.randrange(10**6)
                 prng = random.Random(seed)
                 policy = {'fifo': Fifo(), 'random': RandomOrder(prng), 'bytewise': Bytewise(), 'reverse': ReverseLinks(),
                           'random2': RandomOrder(prng, split=0.8, burst=1, lazy=0.5)}[pname]
-                sim = Sim(m, t, seed=seed)
+                sim = Sim(m, t if t0 is None else t0, seed=seed)
                 try:
+                    if t0 is not None:
+                        for mpc_i in sim.mpcs:
+                            mpc_i.threshold = t
                     st = sim.start(policy)
-                    key = {'m': m, 't': t, 'policy': pname, 'seed': seed}
+                    key = {'m': m, 't': t, 'policy': pname, 'seed': seed, 'threshold_at_startup': t0}
                     ctx.case(key, nontrivial=t >= 1, kind='m=%d t=%d' % (m, t))
                     if not all(x is True for x in st):
                         ctx.violation('handshake-incomplete m=%d t=%d %s' % (m, t, pname), {**key, 'result': str(st)})
@@ -87,7 +100,7 @@ def run(ctx):
                             ks = sim.mpcs[i]._prss_keys_to_peer(j)
                             inv = {bytes(v): S for S, v in tables[i].items()}
                             tp_impl.append([list(inv[bytes(k)]) for k in ks])
-                    if pname == 'fifo':
+                    if pname == 'fifo' and t0 is None:
                         slist = '[' + '; '.join('[' + '; '.join(natlit(x) for x in S) + ']' for S in subsets) + ']'
                         exprs.append('(subsets %s %s, map (fun S => map (fun j => holds %s %s j S) (seq 0 %s)) %s, '
                                      'flat_map (fun i => map (fun j => to_peer %s %s i j) (seq (S i) (%s - S i))) (seq 0 %s))' % (
